@@ -126,6 +126,17 @@ Definition mem_spec_init : (Z -> Z) * Z := (fun _ => 0, 0).
 (* addresses come from aw-bit wires *)
 Definition addr_ok (aw : Z) (i : Z * Z * Z * Z) : Prop := let '(ra, wa, we, wd) := i in 0 <= ra < 2 ^ aw /\ 0 <= wa < 2 ^ aw.
 
+(* ---- dual-port synchronous memory: BOTH read ports return the content before the edge; then port a's write, then port b's
+   write (b wins when both write the same cell) *)
+Definition upd (m : Z -> Z) (we wa wd : Z) : Z -> Z := if we =? 0 then m else fun a => if a =? wa then wd else m a.
+Definition dp_spec (wra wrb : Z) (s : (Z -> Z) * (Z * Z)) (i : (Z * Z * Z * Z) * (Z * Z * Z * Z)) : (Z -> Z) * (Z * Z) :=
+  let '((raa, waa, wa, wda), (rab, wab, wb, wdb)) := i in
+  let m := fst s in
+  (upd (upd m wa waa wda) wb wab wdb, (m raa mod 2 ^ wra, m rab mod 2 ^ wrb)).
+Definition dp_spec_init : (Z -> Z) * (Z * Z) := (fun _ => 0, (0, 0)).
+Definition dp_addr_ok (aw : Z) (i : (Z * Z * Z * Z) * (Z * Z * Z * Z)) : Prop :=
+  let '((raa, waa, wa, wda), (rab, wab, wb, wdb)) := i in
+  0 <= raa < 2 ^ aw /\ 0 <= waa < 2 ^ aw /\ 0 <= rab < 2 ^ aw /\ 0 <= wab < 2 ^ aw.
 (* ---- auto reset: high after the first and the second edge, low before and afterwards *)
 Definition autoreset_spec (w : Z) (k : nat) : Z :=
   match k with 1%nat | 2%nat => 1 mod 2 ^ w | _ => 0 end.
